@@ -199,12 +199,47 @@ def eff_cost_ok(circ, cap=6000):
     return du.max_depth_cost(c, cap) <= cap
 
 
+def read_depths(circ):
+    """the depth query of the public API (`register_depth` recomputes every register's depth through `_max_depth`); None when the
+    literal recursion would be too expensive"""
+    if du.max_depth_cost(circ, 6000) > 6000:
+        return None
+    try:
+        rd = circ.register_depth
+        return {t: [int(x) for x in rd[t]] for t in "epc"}
+    except Exception as e:  # noqa: BLE001
+        return "!" + du.err_name(e)
+
+
+def replay_q(ne, np_, nc, edit_tokens):
+    """`du.replay_edits` for histories that also contain *queries* (token `Q/d`: read `register_depth` at this point).  A query is not an
+    edit: the model never sees it (metrics are functions of the circuit, not of what was asked before)."""
+    circ = du.new_circuit(ne, np_, nc)
+    errs = []
+    for t in edit_tokens:
+        if t.startswith("Q/"):
+            read_depths(circ)
+            errs.append(None)
+            continue
+        ed = du.parse_edit(t)
+        if ed[0] == "C":
+            circ = circ.copy()
+            errs.append(None)
+        else:
+            errs.append(du.apply_edit(circ, ed))
+    return circ, errs
+
+
+def no_q(tokens):
+    return [t for t in tokens if not t.startswith("Q/")]
+
+
 def metric_fails(inp, name):
     """does metric `name` (or register_depth) still disagree with its definition on this history?"""
     import random
 
     try:
-        circ, errs = du.replay_edits(inp["ne"], inp["np"], inp["nc"], inp["edits"])
+        circ, errs = replay_q(inp["ne"], inp["np"], inp["nc"], inp["edits"])
     except Exception:  # noqa: BLE001
         return False
     if any(e for e in errs):
@@ -343,9 +378,23 @@ def run(ctx):
                 circ = circ.copy()
             else:
                 du.apply_edit(circ, ed)
+            if rng.random() < 0.3:
+                # a depth query in the middle of the history: its answer is the definition on the circuit as it is now, whatever was
+                # asked before and however the circuit was edited since
+                toks.append("Q/d")
+                got = read_depths(circ)
+                res.count("branches", "history:query-between-edits")
+                if got is not None:
+                    regd_now = ref_metrics(circ)[1]
+                    res.evaluations += 1
+                    if got != regd_now:
+                        report(res, "metric:register_depth:wrong-value", f"register_depth = {got} in the middle of an edit history, ASAP layer of the last operation "
+                               f"per register = {regd_now}", {"ne": init[0], "np": init[1], "nc": init[2], "edits": list(toks)}, "register_depth")
+                        break
         with_eff = eff_cost_ok(circ)
         q = "m" if with_eff else "n"
-        rep = drv.ask(f"dag.run ne={init[0]} np={init[1]} nc={init[2]} edits={du.emp(','.join(toks))} qs={','.join(['*'] * (len(toks) - 1) + [q])}")
+        mtoks = no_q(toks)
+        rep = drv.ask(f"dag.run ne={init[0]} np={init[1]} nc={init[2]} edits={du.emp(','.join(mtoks))} qs={','.join(['*'] * (len(mtoks) - 1) + [q])}")
         inp = {"ne": init[0], "np": init[1], "nc": init[2], "edits": toks}
         if rep["_status"] != "ok":
             res.exact_break("dag.run:reply", input=inp, impl="ok", model=rep["_raw"][:200])
@@ -389,10 +438,10 @@ def replay(ctx, data):
             inp = b.get("input")
             if not isinstance(inp, dict) or "edits" not in inp:
                 continue
-            circ, _ = du.replay_edits(inp["ne"], inp["np"], inp["nc"], inp["edits"])
+            circ, _ = replay_q(inp["ne"], inp["np"], inp["nc"], inp["edits"])
             with_eff = eff_cost_ok(circ)
             drv = du.RDriver()
-            toks = inp["edits"]
+            toks = no_q(inp["edits"])
             q = "m" if with_eff else "n"
             rep = drv.ask(f"dag.run ne={inp['ne']} np={inp['np']} nc={inp['nc']} edits={du.emp(','.join(toks))} "
                           f"qs={','.join(['*'] * max(0, len(toks) - 1) + [q])}" if toks else
@@ -408,7 +457,7 @@ def replay(ctx, data):
     inp = v.get("input")
     if not inp:
         return None
-    circ, errs = du.replay_edits(inp["ne"], inp["np"], inp["nc"], inp["edits"])
+    circ, errs = replay_q(inp["ne"], inp["np"], inp["nc"], inp["edits"])
     ref, regd = ref_metrics(circ)
     vals = evaluate_all(circ, ctx.rng, eff_cost_ok(circ))
     ok = True
